@@ -490,6 +490,19 @@ def judgeFromFloat (T : Ty) (B : BinFmt) (bits : Nat) (ryu : List Nat) (a : PAns
        | _ => [])
     | _ => [("RYU", "float formatter contract: text is not a finite numeral")]
 
+/-- `TryFrom<int>` / `TryFrom<float>` report their refusal as an `Err` whose text must be a truthful width overflow (C17):
+    the integer or the float formatter's text is a numeral of `d` written digits and exponent `q` -/
+def judgeConvErr (T : Ty) (d : Nat) (q : Int) (f : ErrFacts) : Complaints :=
+  match T.capN with
+  | some cap => if need d (some q) > cap then judgeOverflowErr (4 * cap) d (some q) true f else []
+  | none => []
+
+/-- the same for a float, through the formatter's text -/
+def judgeConvErrFloat (T : Ty) (ryu : List Nat) (f : ErrFacts) : Complaints :=
+  match parse ryu with
+  | some (.finite _ i fr ex) => judgeConvErr T (i ++ fr).length (expValue ex - fr.length) f
+  | _ => []
+
 /-! ## Byte-level API (C16, C17) -/
 
 def judgeBytesApi (bytes le be frombe : List Nat) : Complaints :=
